@@ -106,9 +106,9 @@ Proof.
   exact (nadd_good ra key m1 (nids (nents w)) [] key' m2 H E').
 Qed.
 
-Lemma nstep_inv ra rd w e : NInv w → NInv (nstep ra false rd w e).
+Lemma nstep_inv ra rd w e : NInv w → NInv (nstep ra false rd true w e).
 Proof.
-  intros HG. destruct e as [d|k d|k|k|k|k|k]; simpl.
+  intros HG. destruct e as [d|k d|k|k|k|k|k|d]; simpl.
   - by apply ncreate_inv.
   - (* NSet *)
     destruct (nents w !! k) as [o|] eqn:Hk; [|done]. destruct (nalive o) eqn:Ha; [|done].
@@ -142,15 +142,18 @@ Proof.
   - (* NCopy *)
     destruct (nents w !! k) as [o|] eqn:Hk; [|done]. destruct (nalive o); [|done].
     by apply ncreate_inv.
+  - (* NReserve: an allocation nobody keeps *)
+    destruct (get_id d (nman w)) as [[i m]|] eqn:E; [|done].
+    unfold NInv in *. simpl. by eapply good_leak.
 Qed.
 
-Lemma nrun_inv_from ra rd es : ∀ w, NInv w → NInv (fold_left (nstep ra false rd) es w).
+Lemma nrun_inv_from ra rd es : ∀ w, NInv w → NInv (fold_left (nstep ra false rd true) es w).
 Proof. induction es as [|e es IH]; intros w H; simpl; [done|]. apply IH. by apply nstep_inv. Qed.
 
 (** Node IDs: when remove_ent does not release the ID of an entity that keeps its key, the node IDs held by the
     existing entities are pairwise distinct and positive after every history — whether or not add_ent allocates
     a second time and whether or not the destructor releases (those two shapes only leak IDs). *)
-Theorem node_ids_nodup_pos ra rd es : let w := nrun ra false rd es in
+Theorem node_ids_nodup_pos ra rd es : let w := nrun ra false rd true es in
   NoDup (nids (nents w)) ∧ (∀ i, i ∈ nids (nents w) → 0 < i).
 Proof.
   intros w. destruct (nrun_inv_from ra rd es nw0 good_init) as (_ & Hnd & Hin). split; [done|].
@@ -168,9 +171,21 @@ Qed.
 Definition node_release_on_remove_history : list nev :=
   [NCreate (Some 0); NRemove 0; NCreate (Some (-1)); NReAdd 0].
 Theorem node_release_on_remove_refuted :
-  has_dup (nmap_ids (nents (nrun false true false node_release_on_remove_history))) = true ∧
-  has_dup (nmap_ids (nents (nrun true true false [NCreate (Some 0); NRemove 0; NCreate (Some (-1)); NCreate (Some (-1)); NReAdd 0; NCreate (Some (-1))]))) = true.
+  has_dup (nmap_ids (nents (nrun false true false true node_release_on_remove_history))) = true ∧
+  has_dup (nmap_ids (nents (nrun true true false true [NCreate (Some 0); NRemove 0; NCreate (Some (-1)); NCreate (Some (-1)); NReAdd 0; NCreate (Some (-1))]))) = true.
 Proof. split; vm_compute; reflexivity. Qed.
 Example node_release_on_remove_history_ok :
-  nmap_ids (nents (nrun false false true node_release_on_remove_history)) = [1; 2].
+  nmap_ids (nents (nrun false false true true node_release_on_remove_history)) = [1; 2].
+Proof. vm_compute. reflexivity. Qed.
+
+(** Round 3.  A copy that takes the key dictionary of its source over without going through __setitem__ holds
+    the ID of its source: a duplicate at once (first history), and — because the destructor of the dropped copy
+    releases the ID that the source still holds — a duplicate among later nodes (second history). *)
+Theorem node_copy_unregistered_refuted :
+  nids (nents (nrun false false true false [NCreate (Some 1); NCopy 0])) = [1; 1] ∧
+  nids (nents (nrun false false true false
+                 [NCreate (Some (-1)); NCopy 0; NRemove 1; NGc 1; NCreate (Some (-1))])) = [1; 1].
+Proof. split; vm_compute; reflexivity. Qed.
+Example node_copy_registered_ok :
+  nids (nents (nrun false false true true [NCreate (Some 1); NCopy 0])) = [1; 2].
 Proof. vm_compute. reflexivity. Qed.
